@@ -10,6 +10,7 @@ import re
 
 import sympy
 
+from engine.algebra import LocalDefs
 from engine.cfg import CFG
 from engine.extract import Request
 from engine.tree import key
@@ -18,7 +19,10 @@ SRC = "src/iterative/OSMAPOSL/OSMAPOSLReconstruction.cxx"
 
 
 def requests():
-    return [Request(SRC, fn=["stir::OSMAPOSLReconstruction::update_estimate"])]
+    return [
+        Request(SRC, fn=["stir::OSMAPOSLReconstruction::update_estimate"]),
+        Request(SRC, fn=["stir::OSMAPOSLReconstruction::apply_multiplicative_update", "stir::divide"], files=["/repo/src/iterative/OSMAPOSL/.*", "/repo/src/include/stir/numerics/divide.inl"]),
+    ]
 
 
 def eval_body(stmts, den, sens, extra):
@@ -64,6 +68,68 @@ def eval_body(stmts, den, sens, extra):
         else:
             raise ValueError("statement " + key(st, True)[:60])
     return cur, g, s
+
+
+def rule_c_elementwise(ctx, f_update, others):
+    """the voxelwise operations really are voxelwise: in every loop that walks several iterators together (denominator/sensitivity,
+    image/update, numerator/denominator of divide) each iterator is advanced exactly once per iteration on every path; divide()
+    sets an element to zero exactly when both |denominator| and |numerator| are below the threshold and divides otherwise; the
+    multiplicative update multiplies each image element by the corresponding update element."""
+    from engine.loops import lockstep
+
+    n = 0
+    for f in [f_update] + others:
+        if f.body is None or not f.cfg_raw:
+            continue
+        cfg = CFG(f)
+        k = 0
+        for lp in f.walk():
+            if lp.k not in ("WhileStmt", "ForStmt"):
+                continue
+            problems, incs = lockstep(cfg, lp)
+            if len(incs) < 2:
+                continue
+            ctx.ob("C07.c-elementwise", f.qn, "lockstep@%d" % k, not problems, "%s:%d" % (f.file, lp.line), "%d iterators advance exactly once per iteration on every path" % len(incs) if not problems else "; ".join(problems))
+            k += 1
+            n += 1
+    for f in others:
+        if f.short == "divide" and f.body is not None and len(f.params) == 4:
+            num_b, num_e, den_b, small = ("v%d" % p["d"] for p in f.params)
+            ifs = [m for m in f.walk() if m.k == "IfStmt" and len(m.c) == 3]
+            ok = False
+            det = "no if/else deciding between zero and quotient"
+            if len(ifs) == 1:
+                g = ifs[0]
+                ck = key(g.c[0].strip())
+                zero = [m for m in g.c[1].walk() if m.k in ("BinaryOperator", "CXXOperatorCallExpr") and m.op == "=" and key(m.c[1].strip()) in ("0", "0.0")]
+                quot = [m for m in g.c[2].walk() if m.k in ("CompoundAssignOperator", "CXXOperatorCallExpr") and m.op == "/="]
+                both = ck.startswith("(&& ") and ck.count("(<= ") == 2 and "fabs(" in ck
+                ok = both and len(zero) == 1 and len(quot) == 1 and key(zero[0].c[0].strip()) == key(quot[0].c[0].strip())
+                det = "element = 0 iff |denominator| <= threshold and |numerator| <= threshold, else element /= denominator" if ok else "divide: condition %s, %d zero assignments, %d divisions" % (ck[:120], len(zero), len(quot))
+            ctx.ob("C07.c-elementwise", "stir::divide", "zero-only-when-both-small", ok, f.where(), det)
+            n += 1
+        if f.short == "apply_multiplicative_update" and f.body is not None and len(f.params) == 2:
+            muls = [m for m in f.walk() if m.k in ("CompoundAssignOperator", "CXXOperatorCallExpr") and m.op == "*="]
+            defs = LocalDefs(f)
+            inl = defs.binding_map()
+            ok = False
+            det = "%d `*=`" % len(muls)
+            if len(muls) == 1:
+                l, r = muls[0].c[0].strip(), muls[0].c[1].strip()
+                # *image_iter *= *update_iter with the iterators initialised from the two parameters
+                def src(e):
+                    for m in e.walk():
+                        if m.k == "DeclRefExpr" and m.get("dk") == "local":
+                            vd = defs.decl.get(m.get("d"))
+                            if vd is not None and vd.c:
+                                return key(vd.c[0].strip())
+                    return "?"
+
+                ok = src(l).startswith("v%d.begin_all" % f.params[0]["d"]) and src(r).startswith("v%d.begin_all" % f.params[1]["d"])
+                det = "image element *= update element (iterators start at %s / %s)" % (src(l), src(r))
+            ctx.ob("C07.c-elementwise", f.qn, "image-times-update", ok, f.where(), det)
+            n += 1
+    return n
 
 
 def run(ctx):
@@ -205,5 +271,14 @@ def run(ctx):
         okd = bool(dd) and lp.c[0].i in cfg.pos and cfg.must_pass_from_entry([lp.c[1].c[0]] if lp.c[1].c else [], lambda x: False) is not None
         after = bool(dd) and cfg.paths_avoiding([cfg.pos[dd[0].i]], lambda x: False, target_pred=lambda x, lp=lp: x.i == lp.c[0].i, to_exit=False) is None
         ctx.ob("C07.b-MAP-denominator", f.qn, "divide-after-clamp:" + model, after, dd[0].where() if dd else f.where(), "the division by the denominator comes after the clamping loop (the loop is not reachable from it)" if after else "division precedes the clamping loop")
+    u2 = ctx.ex.get(reqs[1])
+    if u2 is not None:
+        seen2, others = set(), []
+        for g in u2.functions:
+            if g.body is not None and not g.is_dependent and (g.file, g.line) not in seen2:
+                seen2.add((g.file, g.line))
+                others.append(g)
+        rule_c_elementwise(ctx, f, others)
+        ctx.require_count("C07.c-elementwise", 5)
     ctx.require_count("C07.a-subiteration-structure", 2)
     ctx.require_count("C07.b-MAP-denominator", 4)
